@@ -216,8 +216,8 @@ TOfType ==
 TargetRules == ClassNames \cup AbstractNames
 QueryNames  == Range(Names) \cup {"z"}
 
-TConforms ==
-  \A c \in ClassNames : \A t \in TargetRules : Conforms(c, t) <=> c \in Below(t, 8)
+TConforms ==   \* (N >= 1 only makes this a state predicate, so that TLC reports it like the others)
+  N >= 1 => \A c \in ClassNames : \A t \in TargetRules : Conforms(c, t) <=> c \in Below(t, 8)
 
 \* the four outcomes of default resolution, stated on the set of candidates
 TPlain ==
